@@ -217,6 +217,17 @@ add("C36", "TLC on Minisanity.tla (reduced chi-square, mean, degrees of freedom 
     "chi-square and ndof.",
     TRUST + "NaN is the marker 99 in the specification; the spread reported by the JAX diagnostics (population std) and the complex-valued conventions are not compared.")
 
+add("C29", "TLC on GaussMarkov.tla (covariance recursion of Wiener / Ornstein-Uhlenbeck / integrated Wiener processes as a transition system over time steps, exact rationals; closed forms checked) + replay of every behaviour into nifty.re.gauss_markov by unit excitations",
+    "One TLC action appends a time step with its own length and parameters (non-uniform grids, time-varying sigma / asperity / damping); the state "
+    "carries the exact covariance Cov(s_a, s_b) of all states so far and the propagator. TLC checks on every reachable state that the recursion "
+    "equals the closed forms of the continuous-time processes (Wiener variance = sum sigma^2 dt, OU variance sigma^2 (1 - prod rho^2) and cross "
+    "covariance Var(x_a) prod rho, velocity of the integrated Wiener process a Wiener process, position variance sigma^2 t^3/3 and position-velocity "
+    "covariance sigma^2 t^2/2 without asperity). Every complete behaviour is replayed: the linear map excitations -> path of the process functions "
+    "(array and scalar parameters), of the model classes WienerProcess / OrnsteinUhlenbeckProcess / IntegratedWienerProcess and of the generic "
+    "discrete_gauss_markov_process with explicit drift and diffusion matrices is extracted by unit excitations; L L^T must equal the specified "
+    "covariance, the response to the initial state the propagator, and the path must be linear in the excitations.",
+    TRUST + "rho = exp(-gamma dt) is given exactly and gamma computed in floating point; comparison to 1e-10.")
+
 
 def main():
     props = [json.loads(l) for l in open(os.path.join(HERE, "properties.jsonl"))]
